@@ -647,7 +647,14 @@ def main(argv):
           'coverage': cov, 'assumptions': assumptions, 'wall_s': round(time.time() - t0, 2),
           'violations': violations}
     if pid != 'ALL':
-        json.dump(ev, open(os.path.join(VERIF, 'evidence', pid + '.json'), 'w'), indent=1)
+        # the registered evidence file is written only by a full run of the property against /repo itself; filtered runs
+        # (--unit/--check) and runs against another tree (GV_REPO, mutation tests) leave it alone
+        if only_unit or only_check or os.path.realpath(REPO) != '/repo':
+            os.makedirs(os.path.join(VERIF, 'scratch', 'evidence-partial'), exist_ok=True)
+            epath = os.path.join(VERIF, 'scratch', 'evidence-partial', pid + '.json')
+        else:
+            epath = os.path.join(VERIF, 'evidence', pid + '.json')
+        json.dump(ev, open(epath, 'w'), indent=1)
     print('%s %s: %d checks, proof obligations %d/%d, bounded %d/%d, violations %d, undecided %d, %.1fs -> exit %d'
           % (pid, tier, len(results), proof_dis, proof_obl, bnd_dis, bnd_obl, violations, len(undecided),
              time.time() - t0, exit_code))
